@@ -22,7 +22,14 @@ Clauses(e) ==
             \A i \in DOMAIN e.lines : st.parent[i] >= 0 /\ (st.bad = 0 \/ i < st.bad) => NodeOf(i).parent = st.parent[i]>>,
        <<"C17.no-error-on-correct-text", ~complete \/ ~structured \/ st.bad # 0 \/
             \A i \in DOMAIN e.lines : Instr(e.lines[i][2]) => ~NodeOf(i).err>>,
-       <<"C17.bad-indentation-flagged", ~complete \/ ~structured \/ st.bad = 0 \/ NodeOf(st.bad).err>> >>
+       <<"C17.bad-indentation-flagged", ~complete \/ ~structured \/ st.bad = 0 \/ NodeOf(st.bad).err>>,
+       \* on the parse tree itself, also after the first offending line: a line that is not flagged, under a parent that is
+       \* not flagged, sits exactly one level below that parent (the program: at indentation 0) -- "not silently re-nested"
+       <<"C17.unflagged-line-one-level-below-parent", ~complete \/ ~structured \/
+            (\E i \in DOMAIN e.lines : e.lines[i][2] = "O" /\ NodeOf(i).err) \/      \* recovery after a flagged opener is not judged
+            \A i \in DOMAIN e.lines : Instr(e.lines[i][2]) /\ ~NodeOf(i).err =>
+                IF NodeOf(i).parent = 0 THEN e.lines[i][1] = 0
+                ELSE NodeOf(NodeOf(i).parent).err \/ e.lines[i][1] = e.lines[NodeOf(i).parent][1] + 4>> >>
 
 TInit == text = <<>> /\ tid \in 1..Len(Traces) /\ l = 1 /\ viols = {} /\ done = FALSE
 Step == /\ l <= Len(T) /\ viols' = AddViols(viols, Failing(Clauses(T[l])), l) /\ l' = l + 1 /\ UNCHANGED <<text, tid, done>>
